@@ -133,9 +133,9 @@ def one_case(name, layout, exts, src_spelling, cfg_spelling, mode):
         else:
             if changed:
                 problems.append("check modified %r" % changed[:5])
-            rep = sorted(os.path.relpath(m.group(1), proj) if os.path.isabs(m.group(1))
-                         else os.path.normpath(os.path.relpath(os.path.join(cwd, m.group(1)), proj))
-                         for m in h2.MISSING_RE.finditer(out))
+            rep = sorted(os.path.relpath(f, proj) if os.path.isabs(f)
+                         else os.path.normpath(os.path.relpath(os.path.join(cwd, f), proj))
+                         for f, _, _ in h2.parse_located(out, 5))
             if rep != want:
                 problems.append("check reports missing references in %r, in scope are %r" % (rep, want))
         for k, v in after.items():
